@@ -26,21 +26,48 @@ def op? : Sexp → Option Op
   | .list [.atom "sr"] => some .sr
   | .list [.atom "svc"] => some .svc
   | .list [.atom "rst"] => some .rst
+  | .list [.atom "sro"] => some .sro
+  | .list [.atom "clr"] => some .clr
   | _ => none
+
+/-- the calls of `Op`, plus the application calling `receive()` / `send(data)` directly -/
+inductive XOp where
+  | op (o : Op) | recv1 | send1 (d : Bytes)
+
+def xop? : Sexp → Option XOp
+  | .list [.atom "recv1"] => some .recv1
+  | .list [.atom "send1", b] => (bytes? b).map .send1
+  | x => (op? x).map .op
 
 def exnS : Option Exn → Sexp
   | none => sym "ok" | some .osError => sym "OSError" | some .other => sym "Other"
 
-def connSteps (c : Conn) : List Op → List Sexp
+/-- (connection after the call, escaped exception, what the call returned) -/
+def xstep (c : Conn) : XOp → Conn × Option Exn × Sexp
+  | .op o => ((step c o).1, (step c o).2, sym "-")
+  | .recv1 => ((recvDirect c).1, (recvDirect c).2.1,
+      match (recvDirect c).2.1, (recvDirect c).2.2 with
+      | none, some d => ofBytes d
+      | _, _ => sym "-")
+  | .send1 d =>
+    match sendDirect c d with
+    | (c', .ok k) => (c', none, ofNat k)
+    | (c', .error e) => (c', some e, sym "-")
+
+def connSteps (c : Conn) : List XOp → List Sexp
   | [] => []
   | op :: ops =>
-    let r := step c op
-    .list [exnS r.2, ofNat r.1.kacc.length, ofNat r.1.txbs.length, ofNat r.1.rxbs.length, ofBool r.1.cutoff]
+    let r := xstep c op
+    .list [exnS r.2.1, ofNat r.1.kacc.length, ofNat r.1.txbs.length, ofNat r.1.rxbs.length, ofBool r.1.cutoff, r.2.2]
       :: connSteps r.1 ops
 
-def connReply (kind : Kind) (wl : Bool) (ops : List Op) (sends : List SResp) (recvs : List RResp) : Sexp :=
+def xrun (c : Conn) : List XOp → Conn
+  | [] => c
+  | op :: ops => xrun (xstep c op).1 ops
+
+def connReply (kind : Kind) (wl : Bool) (ops : List XOp) (sends : List SResp) (recvs : List RResp) : Sexp :=
   let c0 := init kind wl sends recvs
-  let c := run c0 ops
+  let c := xrun c0 ops
   let w (b : Bytes) : Sexp := if wl then ofBytes b else sym "-"
   .list [.list (connSteps c0 ops),
          .list [ofBytes c.txbs, ofBytes c.rxbs, ofBytes c.kacc, ofBytes c.kdel, w c.wireTx, w c.wireRx, ofBool c.cutoff]]
@@ -63,6 +90,9 @@ def sop? : Sexp → Option SOp
   | .list [.atom "rm", ca] => do some (.rm (← nat? ca))
   | .list [.atom "close"] => some .close
   | .list [.atom "reopen"] => some .reopen
+  | .list [.atom "rxix", ca] => (nat? ca).map .rxix
+  | .list [.atom "closeix", ca] => (nat? ca).map .closeix
+  | .list [.atom "closeall"] => some .closeall
   | _ => none
 
 def statusS : Status → Sexp
@@ -110,16 +140,22 @@ def cop? : Sexp → Option COp
   | .list [.atom "reopen"] => some .reopen
   | .list [.atom "close"] => some .close
   | .list [.atom "tick", d] => (nat? d).map .tick
+  | .list [.atom "wind", t] => (nat? t).map COp.wind
   | .list [.atom "connect", rc] => do some (.connect (← nat? rc) none)
   | .list [.atom "connect", rc, .atom "-"] => do some (.connect (← nat? rc) none)
   | .list [.atom "connect", rc, h] => do some (.connect (← nat? rc) (some (← hresp? h)))
+  | .list [.atom "service", rc, .atom "-"] => do some (.service (← nat? rc) none)
+  | .list [.atom "service", rc, h] => do some (.service (← nat? rc) (some (← hresp? h)))
+  | .list [.atom "feed", .list sends, .list recvs] => do some (.feed (← sends.mapM sresp?) (← recvs.mapM rresp?))
+  | .list [.atom "tx", d] => (bytes? d).map .tx
   | _ => none
 
 def cliSteps (c : Cli) : List COp → List Sexp
   | [] => []
   | op :: ops =>
     let r := c.step op
-    .list [exnS r.2, .list (r.1.openIds.map ofNat), ofOpt ofNat r.1.cs, ofBool r.1.connected] :: cliSteps r.1 ops
+    .list [exnS r.2, .list (r.1.openIds.map ofNat), ofOpt ofNat r.1.cs, ofBool r.1.connected, ofBool r.1.io.cutoff,
+           ofNat r.1.io.rxbs.length, ofNat r.1.io.txbs.length] :: cliSteps r.1 ops
 
 def sev? : Sexp → Option Idle.SEv
   | .list [.atom "conn", ca] => (nat? ca).map .conn
@@ -129,6 +165,7 @@ def sev? : Sexp → Option Idle.SEv
   | .list [.atom "req10", ca] => (nat? ca).map .req10
   | .list [.atom "cap", ca, k] => do some (.cap (← nat? ca) (← nat? k))
   | .list [.atom "wind", t] => (nat? t).map .wind
+  | .list [.atom "settmo", t] => (nat? t).map .settmo
   | .list [.atom "svc"] => some .svc
   | _ => none
 
@@ -147,7 +184,7 @@ def idleSteps (order : List Nat) (s : Idle.Srv) : List Idle.SEv → List Sexp
 
 def handle : Sexp → Sexp
   | .list [.atom "conn", k, wl, .list ops, .list sends, .list recvs] =>
-    match kind? k, bool? wl, ops.mapM op?, sends.mapM sresp?, recvs.mapM rresp? with
+    match kind? k, bool? wl, ops.mapM xop?, sends.mapM sresp?, recvs.mapM rresp? with
     | some k, some wl, some ops, some sends, some recvs => connReply k wl ops sends recvs
     | _, _, _, _, _ => sym "bad-request"
   | .list [.atom "noop"] => sym "noop"
